@@ -32,3 +32,8 @@ CHECKS["C10"] = ("exploration",
   "Each condition is evaluated on exhaustive grids around its decision boundary (value vs n, multiples, best vs optimum+epsilon with float neighbours) and on random inputs, with the progress value compared bit-exactly; iteration-bounded loops are run for n in 0..40 (and random n) counting body runs, condition evaluations and the progress sequence; ChangeOf is driven through all short value histories and long random ones with both checkers over i64 and objective values; RandomChance by frequency over fixed samples; And/Or/Not through constructors, operators and clones with every operand's lifecycle traced.",
   "EveryN(0) excluded. RandomChance: deviations inside the 6-sigma band are invisible. Two sequential loops over one shared counter are not asserted either way.",
   "DESIGN.md §6 C10")
+CHECKS["C12"] = ("exploration",
+  "proptest + small exhaustive population pairs through every replacement operator, validity predicates on multisets/objectives",
+  "Every operator is run through Component::execute on a prepared stack (with populations below) and through Replacement::replace on exhaustive small populations (ties, duplicates) and random ones (sizes 0-8, unevaluated and +inf objectives, every mu incl. 0 and above the total); the result must be a sub-multiset of parents and offspring with the operator-specific content, the stack must shrink by exactly one and everything below stay untouched.",
+  "Fitness-based operators only get evaluated individuals. Which of several tied individuals survives is not asserted.",
+  "DESIGN.md §6 C12")
